@@ -330,7 +330,6 @@ theorem insertLocals_rel (H : HooksRel C P) : ∀ (names : List TName) (vs : Lis
     (insertLocals P names vs s).1.1.map TName.name = names.map TName.name ∧
       Forall2 C.relE vs (insertLocals P names vs s).1.2
   | [], vs, s => by
-    simp only [insertLocals]
     exact ⟨rfl, Forall2.refl C.reflE vs⟩
   | .mk n ty :: ns, [], s => by
     simp only [insertLocals, List.map_cons, TName.name, H.insertLocalName]
@@ -341,8 +340,8 @@ theorem insertLocals_rel (H : HooksRel C P) : ∀ (names : List TName) (vs : Lis
       .cons (H.insertLocalVal n v s) (insertLocals_rel H ns vs _).2⟩
 
 theorem scope_visit_rel (H : HooksRel C P) {n : Nat} (A : All C P sc n) (b : Block) (c : Option Expr)
-    (pushes : Bool) (s : σ) :
-    C.relB b (visitBlock P sc n pushes (P.scope b c s).1.1 (P.scope b c s).2).1 :=
+    (pushes : Bool) (s s' : σ) :
+    C.relB b (visitBlock P sc n pushes (P.scope b c s).1.1 s').1 :=
   C.transB (H.scopeB b c s) (A.b _ _ _)
 
 theorem fnBody_rel (H : HooksRel C P) {n : Nat} (A : All C P sc n) (hs : Bool) (f : FnBody) (s : σ) :
@@ -352,9 +351,9 @@ theorem fnBody_rel (H : HooksRel C P) {n : Nat} (A : All C P sc n) (hs : Bool) (
     simp only [visitFnBody]
     cases sc
     · simp only [Bool.false_eq_true, if_false]
-      exact C.fnBody (mapS_names (tnameTy_name _) _ _).symm (scope_visit_rel H A _ _ _ _)
+      exact C.fnBody (mapS_names (tnameTy_name _) _ _).symm (scope_visit_rel H A _ _ _ _ _)
     · simp only [if_true]
-      refine C.fnBody ?_ (scope_visit_rel H A _ _ _ _)
+      refine C.fnBody ?_ (scope_visit_rel H A _ _ _ _ _)
       rw [mapS_names (tnameInsert_name H.insert), mapS_names (tnameTy_name _)]
 
 theorem stmtKids_rel (H : HooksRel C P) {n : Nat} (A : All C P sc n) (st : Stmt) (s2 : σ) :
@@ -369,7 +368,7 @@ theorem stmtKids_rel (H : HooksRel C P) {n : Nat} (A : All C P sc n) (st : Stmt)
   | callStmt c => exact C.reflS _
   | doBlock b =>
     simp only [stmtKids]
-    exact C.doBlock (scope_visit_rel H A _ _ _ _)
+    exact C.doBlock (scope_visit_rel H A _ _ _ _ _)
   | function name m body =>
     cases name with
     | nil => exact C.reflS _
@@ -384,37 +383,37 @@ theorem stmtKids_rel (H : HooksRel C P) {n : Nat} (A : All C P sc n) (st : Stmt)
       · cases body with
         | mk params variadic varTy ret generics attrs blk =>
           simp only [stmtKids, Bool.false_eq_true, if_false, hroot]
-          exact C.function (C.fnBody (mapS_names (tnameTy_name _) _ _).symm (scope_visit_rel H A _ _ _ _))
+          exact C.function (C.fnBody (mapS_names (tnameTy_name _) _ _).symm (scope_visit_rel H A _ _ _ _ _))
       · simp only [stmtKids, if_true, hroot]
         exact C.function (A.f _ _ _)
   | gfor names values body =>
     simp only [stmtKids]
     cases sc
     · simp only [Bool.false_eq_true, if_false]
-      exact C.gfor (mapS_names (tnameTy_name _) _ _).symm (mapS_rel A.e _ _) (scope_visit_rel H A _ _ _ _)
+      exact C.gfor (mapS_names (tnameTy_name _) _ _).symm (mapS_rel A.e _ _) (scope_visit_rel H A _ _ _ _ _)
     · simp only [if_true]
-      refine C.gfor ?_ (mapS_rel A.e _ _) (scope_visit_rel H A _ _ _ _)
+      refine C.gfor ?_ (mapS_rel A.e _ _) (scope_visit_rel H A _ _ _ _ _)
       rw [mapS_names (tnameTy_name _), mapS_names (tnameInsert_name H.insert)]
   | nfor name start stop step body =>
     simp only [stmtKids]
     cases sc
     · simp only [Bool.false_eq_true, if_false]
-      exact C.nfor (tnameTy_name _ _ _).symm (A.e _ _) (A.e _ _) (optS_rel A.e _ _) (scope_visit_rel H A _ _ _ _)
+      exact C.nfor (tnameTy_name _ _ _).symm (A.e _ _) (A.e _ _) (optS_rel A.e _ _) (scope_visit_rel H A _ _ _ _ _)
     · simp only [if_true]
-      refine C.nfor ?_ (A.e _ _) (A.e _ _) (optS_rel A.e _ _) (scope_visit_rel H A _ _ _ _)
+      refine C.nfor ?_ (A.e _ _) (A.e _ _) (optS_rel A.e _ _) (scope_visit_rel H A _ _ _ _ _)
       rw [tnameInsert_name H.insert, tnameTy_name]
   | ifs branches els =>
     simp only [stmtKids]
     refine C.ifs ?_ ?_
-    · exact mapS_rel (R := PairRel C.relE C.relB) (fun p s => ⟨A.e _ _, scope_visit_rel H A _ _ _ _⟩) _ _
-    · exact optS_rel (R := C.relB) (fun b s => scope_visit_rel H A _ _ _ _) _ _
+    · exact mapS_rel (R := PairRel C.relE C.relB) (fun p s => ⟨A.e _ _, scope_visit_rel H A _ _ _ _ _⟩) _ _
+    · exact optS_rel (R := C.relB) (fun b s => scope_visit_rel H A _ _ _ _ _) _ _
   | localAssign kind names values =>
     simp only [stmtKids]
     cases sc
     · simp only [Bool.false_eq_true, if_false]
       exact C.localAssign (mapS_names (tnameTy_name _) _ _).symm (mapS_rel A.e _ _)
     · simp only [if_true]
-      refine C.localAssign ?_ (Forall2.trans (fun _ _ _ => C.transE) (mapS_rel A.e _ _) (insertLocals_rel H _ _ _).2)
+      refine C.localAssign ?_ (Forall2.trans (fun a b c => @CongFam.transE C a b c) (mapS_rel A.e _ _) (insertLocals_rel H _ _ _).2)
       rw [(insertLocals_rel H _ _ _).1, mapS_names (tnameTy_name _)]
   | localFn kind name body =>
     simp only [stmtKids]
@@ -427,12 +426,12 @@ theorem stmtKids_rel (H : HooksRel C P) {n : Nat} (A : All C P sc n) (st : Stmt)
     simp only [stmtKids]
     cases sc
     · simp only [Bool.false_eq_true, if_false]
-      exact C.repeat_ (scope_visit_rel H A _ _ _ _) (C.transE (H.scopeC _ _ _) (A.e _ _))
+      exact C.repeat_ (scope_visit_rel H A _ _ _ _ _) (C.transE (H.scopeC _ _ _) (A.e _ _))
     · simp only [if_true]
-      exact C.repeat_ (scope_visit_rel H A _ _ _ _) (C.transE (H.scopeC _ _ _) (A.e _ _))
+      exact C.repeat_ (scope_visit_rel H A _ _ _ _ _) (C.transE (H.scopeC _ _ _) (A.e _ _))
   | while_ cond body =>
     simp only [stmtKids]
-    exact C.while_ (A.e _ _) (scope_visit_rel H A _ _ _ _)
+    exact C.while_ (A.e _ _) (scope_visit_rel H A _ _ _ _ _)
   | typeDecl ex name ty =>
     simp only [stmtKids]
     exact C.typeDecl
@@ -460,7 +459,7 @@ theorem all_succ (H : HooksRel C P) {n : Nat} (A : All C P sc n) : All C P sc (n
   en := fun x s => by
     cases x <;> simp only [visitEntry, EntryRel]
     · exact A.e _ _
-    · exact ⟨rfl, A.e _ _⟩
+    · exact ⟨trivial, A.e _ _⟩
     · exact ⟨A.e _ _, A.e _ _⟩
   sg := fun x s => by
     cases x <;> simp only [visitSeg, SegRel]
